@@ -8,6 +8,7 @@ import (
 	"fmt"
 	"math/big"
 	"math/rand"
+	"os"
 	"reflect"
 	"regexp"
 	"runtime"
@@ -507,6 +508,9 @@ func TestCheck(t *testing.T) {
 	}
 	for i, hl := range hostileLiterals() {
 		i, hl := i, hl
+		if os.Getenv("VERIF_LIGHT") == "1" && len(hl.data) > 1<<20 {
+			continue // the multi-megabyte literals run in the plain pass only (the sanitizers make million-level recursion take minutes)
+		}
 		r.Case(fmt.Sprintf("hostile/%d/%s", i, hl.label), func(c *h.Case) {
 			ds := dests
 			if len(hl.data) > 1<<20 {
